@@ -152,6 +152,53 @@ func simotCase(t *rapid.T, name string, g group.Group) {
 		vlib.Report(t, key("round3-not-repeatable"), fmt.Sprintf("%s: err=%v", desc, err))
 		return
 	}
+
+	// ---- object reuse: further transfers on the SAME Sender and Receiver objects (all choice
+	// patterns over the cases); each must give the receiver exactly m_choice of that transfer,
+	// as fresh objects do, and its key must fail on the other ciphertext
+	nmore := rapid.IntRange(1, 3).Draw(t, "more")
+	pattern := fmt.Sprintf("%d", choice)
+	for r := 0; r < nmore; r++ {
+		c2 := rapid.IntRange(0, 1).Draw(t, fmt.Sprintf("choice%d", r))
+		pattern += fmt.Sprintf("%d", c2)
+		l2 := rapid.SampledFrom([]int{0, 1, 16, 33, n}).Draw(t, fmt.Sprintf("len%d", r))
+		a0, a1 := make([]byte, l2), make([]byte, l2)
+		if l2 > 0 {
+			vlib.FillRandom(t, a0, fmt.Sprintf("r%dm0", r))
+			vlib.FillRandom(t, a1, fmt.Sprintf("r%dm1", r))
+		}
+		w2, o2 := a0, a1
+		if c2 == 1 {
+			w2, o2 = a1, a0
+		}
+		vlib.Eval(sub)
+		var f0, f1 []byte
+		var errH, errS error
+		var gotH []byte
+		rdesc := fmt.Sprintf("%s REUSED OBJECTS transfer %d (choices so far %s) len=%d m0=%s m1=%s", desc, r+2, pattern, l2, hxs(a0), hxs(a1))
+		if pn, st := vlib.Catch(func() {
+			A := sender.InitSender(g, append([]byte{}, a0...), append([]byte{}, a1...), index+r+1)
+			B := receiver.Round1Receiver(g, c2, index+r+1, A)
+			f0, f1 = sender.Round2Sender(B)
+			errH = receiver.Round3Receiver(f0, f1, c2)
+			gotH = append([]byte{}, receiver.Returnmc()...)
+			errS = receiver.Round3Receiver(f1, f0, c2)
+		}); pn != nil {
+			vlib.Report(t, key("reuse/panic/"+vlib.PanicClass(pn)), fmt.Sprintf("%s: %v\n%s", rdesc, pn, st))
+			return
+		}
+		if errH != nil || !bytes.Equal(gotH, w2) {
+			vlib.Report(t, key("reuse/receiver-output"), fmt.Sprintf("%s: round 3 err=%v, receiver got %s, m_choice = %s", rdesc, errH, hxs(gotH), hxs(w2)))
+			return
+		}
+		if errS == nil {
+			vlib.Report(t, key("reuse/other-ciphertext-decrypts"), rdesc)
+			return
+		}
+		_ = o2
+		vlib.NonTrivial(sub, "reused-objects-transfer", []byte(name), f0, f1, []byte(pattern))
+	}
+	vlib.Class(sub, "reuse-choices="+pattern)
 }
 
 func TestC16SimOT(t *testing.T) {
